@@ -11,7 +11,9 @@
 //!           the REAL Document::save(path) / IncrementalDocument::save(path): a healthy temporary file; a path that is a
 //!           directory (File::create fails); /dev/full (every write fails with ENOSPC); a temporary file under
 //!           RLIMIT_FSIZE = p (the kernel takes p bytes -- with a short write at the boundary -- and fails every later
-//!           write with EFBIG).  `sizes` is read by the model only.
+//!           write with EFBIG).  `sizes` is read by the model only.  The document state is printed as `?` when it depends
+//!           on when the BufWriter flushed (failed save, file created, file shorter than the bytes written before the
+//!           mutation point; Props C19_save_path_residue); it is then only checked to be one of the two allowed states.
 //!   cfg carries, after the two mode words, the state before the save (max_id, trailer, written ids) for the model.
 //!   r ::= (a k) | i | z | (f kind)
 //! The sinks implement std::io::Write from the script (call-driven: one answer per `write` call;
@@ -24,6 +26,7 @@
 //!   when the delivered bytes are not a prefix of the reference output,
 //!   when a re-save of the same document object to a healthy sink fails or does not load back to
 //!   the content the reference output loads to;
+//!   when a save leaves the document in a state that is neither the original nor that of a successful save;
 //!   for save(path): FAIL when it returns Ok but the file does not hold the complete output (or the device
 //!   refused a write), when it returns an error although the device took everything, when the error is not the
 //!   device's, when the file content is not a prefix of the complete output; the same re-save check follows.
@@ -311,6 +314,8 @@ fn content_of(bytes: &[u8]) -> Result<Sx, String> {
 }
 
 struct Outcome {
+    /// save(path) only: false when the document state after the save depends on when the BufWriter flushed
+    state_known: bool,
     rc: Sx,
     delivered: Vec<u8>,
     state: Sx,
@@ -320,7 +325,35 @@ struct Outcome {
     verdict: Option<String>,
 }
 
-fn one_run(base: &Target, full: &[u8], ref_content: &Option<Result<Sx, String>>, script: Vec<Resp>, positional: bool) -> Outcome {
+/// what the reference pass (perfect sink) established for this document
+struct Reference {
+    /// content the complete output loads to (None: the document breaks lopdf's max_id invariant, not compared)
+    content: Option<Result<Sx, String>>,
+    /// document state before the save and after a successful one
+    before: Sx,
+    after_ok: Sx,
+    /// bytes written before the save path mutates the document
+    cut: usize,
+}
+
+/// C19_failed_save_residue / C19_save_path_residue evaluated on the implementation: a save, failed or not, leaves the
+/// document either as it was or exactly as a successful save leaves it
+fn residue_verdict(rf: &Reference, after: &Sx, ok: bool) -> Option<String> {
+    if ok {
+        if *after != rf.after_ok {
+            return Some("a successful save left the document in another state than the reference save".into());
+        }
+    } else if *after != rf.before && *after != rf.after_ok {
+        return Some(format!(
+            "a failed save left the document in a state that is neither the original nor that of a successful save: {}",
+            after.print()
+        ));
+    }
+    None
+}
+
+fn one_run(base: &Target, full: &[u8], rf: &Reference, script: Vec<Resp>, positional: bool) -> Outcome {
+    let ref_content = &rf.content;
     let mut t = base.clone();
     let mut sink = ScriptSink::new(script, positional);
     let r = t.save_to(&mut sink);
@@ -356,6 +389,9 @@ fn one_run(base: &Target, full: &[u8], ref_content: &Option<Result<Sx, String>>,
         }
         (Err(e), None) => fail(format!("sink never failed but save returned Err({:?})", e.kind())),
     }
+    if let Some(v) = residue_verdict(rf, &after, r.is_ok()) {
+        fail(v);
+    }
     // a later save of the same document object to a healthy sink
     let mut out2: Vec<u8> = vec![];
     let r2 = t.save_to(&mut out2);
@@ -371,7 +407,7 @@ fn one_run(base: &Target, full: &[u8], ref_content: &Option<Result<Sx, String>>,
             }
         }
     }
-    Outcome { rc: rc_sx(&r), delivered: sink.data, state: after, max_id, size, resave_same, verdict }
+    Outcome { state_known: true, rc: rc_sx(&r), delivered: sink.data, state: after, max_id, size, resave_same, verdict }
 }
 
 // ---------------------------------------------------------------------------------------------
@@ -488,7 +524,8 @@ fn dev_full_ok() -> bool {
 }
 
 /// Err(reason) = the environment cannot provide this device (skip)
-fn path_run(base: &Target, full: &[u8], ref_content: &Option<Result<Sx, String>>, target: PathTarget) -> Result<Outcome, String> {
+fn path_run(base: &Target, full: &[u8], rf: &Reference, target: PathTarget) -> Result<Outcome, String> {
+    let ref_content = &rf.content;
     let mut t = base.clone();
     let dir = scratch_dir();
     let file = dir.join("out.pdf");
@@ -566,6 +603,9 @@ fn path_run(base: &Target, full: &[u8], ref_content: &Option<Result<Sx, String>>
         }
         (Err(e), false) => fail(format!("save(path) to {:?}: the device never failed but save returned Err({:?})", target, e.kind())),
     }
+    if let Some(v) = residue_verdict(rf, &after, r.is_ok()) {
+        fail(v);
+    }
     // a later save of the same document object to a healthy sink
     let mut out2: Vec<u8> = vec![];
     let r2 = t.save_to(&mut out2);
@@ -581,7 +621,8 @@ fn path_run(base: &Target, full: &[u8], ref_content: &Option<Result<Sx, String>>
             }
         }
     }
-    Ok(Outcome { rc: rc_sx(&r), delivered: content, state: after, max_id, size, resave_same, verdict })
+    let state_known = r.is_ok() || matches!(target, PathTarget::Dir) || content.len() >= rf.cut;
+    Ok(Outcome { state_known, rc: rc_sx(&r), delivered: content, state: after, max_id, size, resave_same, verdict })
 }
 
 fn main() {
@@ -597,7 +638,8 @@ fn main() {
         };
         // reference output with a perfect sink
         let mut full: Vec<u8> = vec![];
-        let r0 = base.clone().save_to(&mut full);
+        let mut ref_doc = base.clone();
+        let r0 = ref_doc.save_to(&mut full);
         let job = &a[6];
         if job.tag() == Some("ref") {
             let stream = a[0].args().first().map(|m| m.is_id("stream")).unwrap_or(false);
@@ -653,7 +695,12 @@ fn main() {
         // that is a precondition of saving (C01), not a consequence of the failed save).
         let max_id = base.doc().max_id;
         let wf = base.doc().objects.keys().all(|(i, _)| *i <= max_id);
-        let ref_content = if wf { Some(content_of(&full)) } else { None };
+        let rf = Reference {
+            content: if wf { Some(content_of(&full)) } else { None },
+            before: base.state_sx(),
+            after_ok: ref_doc.state_sx(),
+            cut: a[4].as_u64().unwrap_or(0) as usize,
+        };
         match job.tag() {
             Some("one") => {
                 let ja = job.args();
@@ -662,7 +709,7 @@ fn main() {
                     Some(s) => s,
                     None => return (Sx::id("badcase"), "skip".into()),
                 };
-                let o = one_run(&base, &full, &ref_content, script, positional);
+                let o = one_run(&base, &full, &rf, script, positional);
                 if let Some(v) = o.verdict {
                     verdict = format!("FAIL {}", v);
                 }
@@ -685,7 +732,7 @@ fn main() {
                 while p <= hi {
                     let mut script = cut_quota(&s, p);
                     script.push(h.clone());
-                    let o = one_run(&base, &full, &ref_content, script, true);
+                    let o = one_run(&base, &full, &rf, script, true);
                     if let Some(v) = o.verdict {
                         if verdict == "ok" {
                             verdict = format!("FAIL at failure position {}: {}", p, v);
@@ -702,13 +749,17 @@ fn main() {
                     Some(t) => t,
                     None => return (Sx::id("badcase"), "skip".into()),
                 };
-                match path_run(&base, &full, &ref_content, target) {
+                match path_run(&base, &full, &rf, target) {
                     Err(why) => (Sx::tagged("nodevice", vec![Sx::bytes(why.as_bytes())]), "skip".into()),
                     Ok(o) => {
                         if let Some(v) = o.verdict {
                             verdict = format!("FAIL {}", v);
                         }
-                        (Sx::tagged("pres", vec![o.rc, Sx::bytes(&o.delivered), o.state, Sx::boolean(o.resave_same)]), verdict)
+                        if o.state_known {
+                            (Sx::tagged("pres", vec![o.rc, Sx::bytes(&o.delivered), o.state, Sx::boolean(o.resave_same)]), verdict)
+                        } else {
+                            (Sx::tagged("pres", vec![o.rc, Sx::bytes(&o.delivered), Sx::tagged("state", vec![Sx::id("?")]), Sx::id("?")]), verdict)
+                        }
                     }
                 }
             }
@@ -720,7 +771,7 @@ fn main() {
                 };
                 let mut out = vec![];
                 for p in ps {
-                    match path_run(&base, &full, &ref_content, PathTarget::Limit(p)) {
+                    match path_run(&base, &full, &rf, PathTarget::Limit(p)) {
                         Err(why) => return (Sx::tagged("nodevice", vec![Sx::bytes(why.as_bytes())]), "skip".into()),
                         Ok(o) => {
                             if let Some(v) = o.verdict {
@@ -728,7 +779,11 @@ fn main() {
                                     verdict = format!("FAIL {}", v);
                                 }
                             }
-                            out.push(Sx::L(vec![o.rc, Sx::num(o.delivered.len()), Sx::num(o.max_id), Sx::num(o.size), Sx::boolean(o.resave_same)]));
+                            if o.state_known {
+                                out.push(Sx::L(vec![o.rc, Sx::num(o.delivered.len()), Sx::num(o.max_id), Sx::num(o.size), Sx::boolean(o.resave_same)]));
+                            } else {
+                                out.push(Sx::L(vec![o.rc, Sx::num(o.delivered.len()), Sx::id("?"), Sx::id("?"), Sx::id("?")]));
+                            }
                         }
                     }
                 }
